@@ -372,7 +372,7 @@ def build(w: dict) -> xarray.Dataset:
             c = e["coord"]
             if c.get("kind") == "time":
                 vals = numpy.datetime64(c.get("epoch", "2000-01-01T00:00:00"), "ns") + \
-                    numpy.asarray(c["values"], dtype="int64") * numpy.timedelta64(1, "h")
+                    numpy.asarray(c["values"], dtype="int64") * numpy.timedelta64(int(c.get("step_minutes", 60)), "m")
                 da = xarray.DataArray(vals, dims=[e["name"]], attrs=c.get("attrs", {}))
                 da.encoding.update(c.get("encoding", {"units": "hours since 1990-01-01 00:00:00", "calendar": "proleptic_gregorian"}))
             else:
